@@ -464,7 +464,7 @@ def main(argv):
             print("replay simulator ->", run_sim_case(doc, P) or "identical")
         else:
             print("replay names a proof/translation obligation:", doc)
-        return 0
+        __import__("shutil").rmtree(ck.scratch, ignore_errors=True); return 0
 
     # ---- (a) read the cache shape from the source, regenerate Gen/GenCacheKey.v
     translate_fail, flags = None, None
